@@ -17,9 +17,13 @@ MODELS = []
 MAX_BUFFER = 16 * 1024 * 1024
 
 
-def model(pattern):
+GENERIC = []
+
+
+def model(pattern, generic=False):
+    """generic=True: catch-all patterns, consulted after every specific model"""
     def deco(f):
-        MODELS.append((re.compile(pattern), f))
+        (GENERIC if generic else MODELS).append((re.compile(pattern), f))
         return f
     return deco
 
@@ -257,7 +261,9 @@ def m_read_bytes(engine, ctx, args, callee, frame):
     return future(callee, lambda: read_vec(ctx, rd, length))
 
 
-UTF8_LIMIT = 12
+import os as _os
+UTF8_LIMIT = int(_os.environ.get("MIRSYM_UTF8_LIMIT", "12"))
+_FORMULA_CACHE = {}
 
 
 def utf8_valid_formula(bs):
@@ -289,6 +295,38 @@ def utf8_valid_formula(bs):
     return to_bool(valid[0])
 
 
+def utf8_valid_formula_symlen(b, limit):
+    """exact UTF-8 validity of Bytes b whose symbolic length is known to be <= limit (no forking)"""
+    n = b.len.z3()
+    z = [b.byte(i).z3() for i in range(limit)]
+
+    def rng(x, lo, hi):
+        return z3.And(z3.UGE(x, lo), z3.ULE(x, hi))
+
+    def has(i, k):      # bytes i .. i+k-1 exist
+        return z3.ULE(z3.BitVecVal(i + k, 64), n)
+    valid = [None] * (limit + 5)
+    for j in range(limit, limit + 5):
+        valid[j] = z3.BoolVal(True)
+    for i in range(limit - 1, -1, -1):
+        opts = [z3.And(z3.ULE(z[i], 0x7F), valid[i + 1])]
+        if i + 1 < limit:
+            opts.append(z3.And(has(i, 2), rng(z[i], 0xC2, 0xDF), rng(z[i + 1], 0x80, 0xBF), valid[i + 2]))
+        if i + 2 < limit:
+            c2 = rng(z[i + 2], 0x80, 0xBF)
+            opts.append(z3.And(has(i, 3), z[i] == 0xE0, rng(z[i + 1], 0xA0, 0xBF), c2, valid[i + 3]))
+            opts.append(z3.And(has(i, 3), z3.Or(rng(z[i], 0xE1, 0xEC), rng(z[i], 0xEE, 0xEF)), rng(z[i + 1], 0x80, 0xBF), c2, valid[i + 3]))
+            opts.append(z3.And(has(i, 3), z[i] == 0xED, rng(z[i + 1], 0x80, 0x9F), c2, valid[i + 3]))
+        if i + 3 < limit:
+            c2 = rng(z[i + 2], 0x80, 0xBF)
+            c3 = rng(z[i + 3], 0x80, 0xBF)
+            opts.append(z3.And(has(i, 4), z[i] == 0xF0, rng(z[i + 1], 0x90, 0xBF), c2, c3, valid[i + 4]))
+            opts.append(z3.And(has(i, 4), rng(z[i], 0xF1, 0xF3), rng(z[i + 1], 0x80, 0xBF), c2, c3, valid[i + 4]))
+            opts.append(z3.And(has(i, 4), z[i] == 0xF4, rng(z[i + 1], 0x80, 0x8F), c2, c3, valid[i + 4]))
+        valid[i] = z3.Or(z3.ULE(n, z3.BitVecVal(i, 64)), z3.Or(*opts))
+    return to_bool(valid[0])
+
+
 def utf8_check(engine, ctx, b):
     """branch on UTF-8 validity of Bytes b; returns bool"""
     if b.utf8:
@@ -296,19 +334,32 @@ def utf8_check(engine, ctx, b):
     if b.len.concrete:
         n = b.len.v
     else:
-        # exact for short strings; above the limit validity is an unconstrained boolean
+        # exact for short strings (symbolic length, no forking on it)
         if ctx.branch(int_binop("Le", b.len, Int(UTF8_LIMIT, 64))):
-            n = ctx.concretize(b.len, limit=UTF8_LIMIT + 2, what="string length")
+            key = ("utf8", b.arr.get_id(), b.off.v if b.off.concrete else b.off.v.get_id(), b.len.v.get_id())
+            f = _FORMULA_CACHE.get(key)
+            if f is None:
+                f = utf8_valid_formula_symlen(b, UTF8_LIMIT)
+                _FORMULA_CACHE[key] = (f, b)      # keep b alive so the ids stay unique
+            else:
+                f = f[0]
+            return ctx.branch(f)
         else:
             # longer strings: explore one definitely-valid class (all ASCII) and one definitely-invalid
             # class (first byte 0xFF); both are real inputs, multi-byte text beyond the limit is not explored
             ctx.note("approx", what="strings longer than %d bytes: only all-ASCII (valid) and 0xFF-led (invalid) explored" % UTF8_LIMIT)
             scan = getattr(engine, "max_input", 256)
             if ctx.branch(ctx.fresh_bool("utf8")):
-                for i in range(scan):
-                    ctx.add(z3.Implies(z3.ULT(z3.BitVecVal(i, 64), b.len.z3()), z3.ULT(b.byte(i).z3(), 0x80)))
+                key = ("ascii", scan, b.arr.get_id(), b.off.v if b.off.concrete else b.off.v.get_id(), b.len.v.get_id())
+                f = _FORMULA_CACHE.get(key)
+                if f is None:
+                    f = z3.And(*[z3.Implies(z3.ULT(z3.BitVecVal(i, 64), b.len.z3()), z3.ULT(b.byte(i).z3(), 0x80)) for i in range(scan)])
+                    _FORMULA_CACHE[key] = (f, b)
+                else:
+                    f = f[0]
+                ctx.assume(f)
                 return True
-            ctx.add(b.byte(0).z3() == 0xFF)
+            ctx.assume(b.byte(0).z3() == 0xFF)
             return False
     if n > 64:
         return ctx.branch(ctx.fresh_bool("utf8"))
@@ -806,6 +857,14 @@ def m_option_map(engine, ctx, args, callee, frame):
     return some(engine.call_closure(f, [r.fields[0].v]))
 
 
+@model(r"^(std::option::)?Option::<.*>::as_mut$")
+def m_option_as_mut(engine, ctx, args, callee, frame):
+    r = deref(args[0])
+    if r.variant == "None":
+        return none()
+    return some(Ref(r.fields[0]))
+
+
 @model(r"^(std::option::)?Option::<.*>::as_ref$")
 def m_option_as_ref(engine, ctx, args, callee, frame):
     r = deref(args[0])
@@ -833,7 +892,7 @@ def m_option_unwrap_or_default(engine, ctx, args, callee, frame):
 
 # ------------------------------------------------------------------ formatting / errors (opaque)
 
-@model(r"^core::fmt::rt::Argument::<'_>::new_|^core::fmt::rt::Argument::new_")
+@model(r"(^|::)Argument::<'_>::new_|(^|::)Argument::new_")
 def m_fmt_arg(engine, ctx, args, callee, frame):
     return Opaque("fmt::Argument")
 
@@ -863,7 +922,7 @@ def m_must_use(engine, ctx, args, callee, frame):
     return args[0]
 
 
-@model(r"^std::io::Error::(other|new)::<")
+@model(r"^(std::)?io::Error::(other|new)::<")
 def m_io_error_other(engine, ctx, args, callee, frame):
     return io_error("Other", args[-1] if args else None)
 
@@ -1026,7 +1085,7 @@ def m_bytes_eq(engine, ctx, args, callee, frame):
 
 # ------------------------------------------------------------------ conversions
 
-@model(r"^<.* as Into<.*>>::into$")
+@model(r"^<.* as Into<.*>>::into$", generic=True)
 def m_into(engine, ctx, args, callee, frame):
     m = re.match(r"^<(.*) as Into<(.*)>>::into$", callee)
     src, dst = m.group(1), m.group(2)
@@ -1044,7 +1103,7 @@ def m_into(engine, ctx, args, callee, frame):
     raise Untranslatable("Into: " + callee)
 
 
-@model(r"^<.* as TryInto<.*>>::try_into$")
+@model(r"^<.* as TryInto<.*>>::try_into$", generic=True)
 def m_try_into(engine, ctx, args, callee, frame):
     m = re.match(r"^<(.*) as TryInto<(.*)>>::try_into$", callee)
     src, dst = m.group(1), m.group(2)
@@ -1087,11 +1146,19 @@ def m_int_from(engine, ctx, args, callee, frame):
     return int_cast(args[0], di[0], di[1])
 
 
-@model(r"^<.* as From<.*>>::from$")
+@model(r"^<.* as From<.*>>::from$", generic=True)
 def m_from_identity(engine, ctx, args, callee, frame):
     m = re.match(r"^<(.*) as From<(.*)>>::from$", callee)
     if strip_generics(m.group(1)) == strip_generics(m.group(2)):
         return args[0]
+    pair = (m.group(1), m.group(2))
+    if pair in (("Box<str>", "String"), ("String", "Box<str>"), ("Vec<u8>", "&[u8]"), ("Vec<u8>", "String"),
+                ("Box<[u8]>", "Vec<u8>"), ("Vec<u8>", "Box<[u8]>"), ("String", "&String"), ("Vec<u8>", "&str"),
+                ("String", "&mut str"), ("Cow<'_, str>", "String"), ("Cow<'_, str>", "&str")):
+        return deep_copy(deref(args[0])) if isinstance(args[0], Ref) else args[0]
+    fn = engine.program.resolve(callee, frame.fn if frame else None)
+    if fn is not None:
+        return engine.run_fn(fn, args)
     raise Untranslatable("From: " + callee)
 
 
@@ -1127,7 +1194,21 @@ def default_value(engine, ctx, ty, frame=None):
     raise Untranslatable("Default for %s" % ty)
 
 
-@model(r"^<.* as Default>::default$")
+@model(r"^core::str::<impl str>::parse::<age::x25519::Recipient>$")
+def m_parse_recipient(engine, ctx, args, callee, frame):
+    """age recipient parsing (bech32) is outside the claim: a definitely-malformed class is explored exactly,
+    the well-formed class nondeterministically"""
+    b = as_bytes(engine, args[0])
+    if ctx.branch(ctx.fresh_bool("recipient_ok")):
+        # an x25519 recipient is "age1" + 58 bech32 characters: exactly 62 bytes
+        ctx.assume(b_and(int_binop("Eq", b.len, Int(62, 64)), int_binop("Eq", b.byte(0), Int(ord("a"), 8))))
+        ctx.note("nondet_model", what="age::x25519::Recipient::from_str assumed to succeed")
+        return ok(Opaque("Recipient", b))
+    ctx.assume(b_or(int_binop("Eq", b.len, Int(0, 64)), int_binop("Ne", b.byte(0), Int(ord("a"), 8))))
+    return err(Opaque("age::ParseError"))
+
+
+@model(r"^<.* as Default>::default$", generic=True)
 def m_default(engine, ctx, args, callee, frame):
     ty = re.match(r"^<(.*) as Default>::default$", callee).group(1)
     fn = engine.program.resolve(callee, frame.fn if frame else None)
@@ -1266,7 +1347,7 @@ def m_drop(engine, ctx, args, callee, frame):
     return unit()
 
 
-@model(r"^<.* as Clone>::clone$")
+@model(r"^<.* as Clone>::clone$", generic=True)
 def m_clone_generic(engine, ctx, args, callee, frame):
     fn = engine.program.resolve(callee, frame.fn if frame else None)
     if fn is not None:
@@ -1514,7 +1595,7 @@ def as_iter(engine, ctx, v, callee=""):
     return make_seq_iter(engine, ctx, v, False)
 
 
-@model(r"^<.* as IntoIterator>::into_iter$")
+@model(r"^<.* as IntoIterator>::into_iter$", generic=True)
 def m_into_iter(engine, ctx, args, callee, frame):
     v = args[0]
     if isinstance(v, IterV):
@@ -1835,3 +1916,270 @@ def m_bitflags_truncate(engine, ctx, args, callee, frame):
 def m_bitflags_all(engine, ctx, args, callee, frame):
     ty, allbits, bits = bitflags_all(engine, frame)
     return Agg("struct", "InternalBitFlags", [Cell(Int(allbits, bits))])
+
+
+
+# ------------------------------------------------------------------ secrecy
+
+@model(r"^(secrecy::)?SecretBox::<.*>::new$|^<(secrecy::)?SecretBox<.*> as From<.*>>::from$|^(secrecy::)?SecretBox::<.*>::init_with")
+def m_secret_new(engine, ctx, args, callee, frame):
+    v = args[0]
+    if isinstance(v, Ref):
+        v = v.cell.v
+    return Agg("struct", "SecretBox", [Cell(v)])
+
+
+@model(r"^<(secrecy::)?SecretBox<.*> as (secrecy::)?ExposeSecret<.*>>::expose_secret$")
+def m_expose_secret(engine, ctx, args, callee, frame):
+    b = deref(args[0])
+    return Ref(b.fields[0])
+
+
+@model(r"^<(secrecy::)?SecretBox<.*> as Default>::default$")
+def m_secret_default(engine, ctx, args, callee, frame):
+    return Agg("struct", "SecretBox", [Cell(bytes_from_concrete(b"", utf8=True))])
+
+
+@model(r"^<(HashMap|IndexMap|BTreeMap)<.*> as Default>::default$|^(HashMap|IndexMap|BTreeMap)::<.*>::(new|with_capacity)$")
+def m_map_new(engine, ctx, args, callee, frame):
+    kind = re.search(r"(HashMap|IndexMap|BTreeMap)", callee).group(1)
+    if callee.endswith("with_capacity") and args:
+        ctx.note("alloc", size=args[0], elem="map-entry", what="%s::with_capacity" % kind, site=frame.fn.name if frame else None)
+    return MapV(kind)
+
+
+@model(r"^<(HashSet|IndexSet|BTreeSet)<.*> as Default>::default$|^(HashSet|IndexSet|BTreeSet)::<.*>::(new|with_capacity)$")
+def m_set_new(engine, ctx, args, callee, frame):
+    kind = re.search(r"(HashSet|IndexSet|BTreeSet)", callee).group(1)
+    if callee.endswith("with_capacity") and args:
+        ctx.note("alloc", size=args[0], elem="map-entry", what="%s::with_capacity" % kind, site=frame.fn.name if frame else None)
+    return SetV(kind)
+
+
+# ------------------------------------------------------------------ map / set operations
+
+def get_map(v):
+    o = deref(v)
+    if not isinstance(o, (MapV, SetV)):
+        raise Untranslatable("map/set operation on %s" % type(o).__name__)
+    return o
+
+
+@model(r"^(HashMap|IndexMap|BTreeMap)::<.*>::insert$")
+def m_map_insert(engine, ctx, args, callee, frame):
+    return get_map(args[0]).insert(engine, ctx, args[1], args[2])
+
+
+@model(r"^(HashSet|IndexSet|BTreeSet)::<.*>::insert$")
+def m_set_insert(engine, ctx, args, callee, frame):
+    return get_map(args[0]).insert(engine, ctx, args[1])
+
+
+@model(r"^(HashMap|IndexMap|BTreeMap)::<.*>::(get|get_mut)::<")
+def m_map_get(engine, ctx, args, callee, frame):
+    mp = get_map(args[0])
+    i = mp.find(engine, ctx, args[1])
+    if i is None:
+        return none()
+    return some(Ref(mp.entries[i][1]))
+
+
+@model(r"^(HashMap|IndexMap|BTreeMap)::<.*>::contains_key::<")
+def m_map_contains(engine, ctx, args, callee, frame):
+    return get_map(args[0]).find(engine, ctx, args[1]) is not None
+
+
+@model(r"^(HashSet|IndexSet|BTreeSet)::<.*>::contains::<")
+def m_set_contains(engine, ctx, args, callee, frame):
+    return get_map(args[0]).contains(engine, ctx, args[1])
+
+
+@model(r"^(HashMap|BTreeMap)::<.*>::remove::<|^IndexMap::<.*>::(shift_remove|swap_remove|remove)::<")
+def m_map_remove(engine, ctx, args, callee, frame):
+    mp = get_map(args[0])
+    i = mp.find(engine, ctx, args[1])
+    if i is None:
+        return none()
+    if "swap_remove" in callee and i != len(mp.entries) - 1:
+        k, c = mp.entries[i]
+        mp.entries[i] = mp.entries[-1]
+        mp.entries.pop()
+        return some(c.v)
+    k, c = mp.entries.pop(i)
+    return some(c.v)
+
+
+@model(r"^(HashSet|BTreeSet)::<.*>::remove::<|^IndexSet::<.*>::(shift_remove|swap_remove|remove)::<")
+def m_set_remove(engine, ctx, args, callee, frame):
+    st = get_map(args[0])
+    for i, k in enumerate(st.items):
+        if key_eq(engine, ctx, k, args[1]):
+            st.items.pop(i)
+            return True
+    return False
+
+
+@model(r"^(HashMap|IndexMap|BTreeMap|HashSet|IndexSet|BTreeSet)::<.*>::(len|is_empty)$")
+def m_map_len(engine, ctx, args, callee, frame):
+    n = get_map(args[0]).seq_len()
+    if callee.endswith("is_empty"):
+        return n.v == 0
+    return n
+
+
+@model(r"^(HashMap|IndexMap|BTreeMap|HashSet|IndexSet|BTreeSet)::<.*>::clear$")
+def m_map_clear(engine, ctx, args, callee, frame):
+    o = get_map(args[0])
+    if isinstance(o, MapV):
+        o.entries[:] = []
+    else:
+        o.items[:] = []
+    return unit()
+
+
+def map_iter(engine, ctx, mp, what):
+    if isinstance(mp, SetV):
+        return IterV("seq", items=[Cell(x) for x in mp.items], idx=0, end=len(mp.items), by_ref=True)
+    if what == "keys":
+        items = [Cell(k) for k, _ in mp.entries]
+        return IterV("seq", items=items, idx=0, end=len(items), by_ref=True)
+    if what == "values":
+        items = [c for _, c in mp.entries]
+        return IterV("seq", items=items, idx=0, end=len(items), by_ref=True)
+    items = [Cell(Agg("tuple", "tuple", [Cell(Ref(Cell(k))), Cell(Ref(c))])) for k, c in mp.entries]
+    return IterV("seq", items=items, idx=0, end=len(items), by_ref=False)
+
+
+@model(r"^(HashMap|IndexMap|BTreeMap|HashSet|IndexSet|BTreeSet)::<.*>::(iter|iter_mut|keys|values|values_mut)$")
+def m_map_iter(engine, ctx, args, callee, frame):
+    what = callee.split("::")[-1]
+    return map_iter(engine, ctx, get_map(args[0]), "keys" if what == "keys" else ("values" if what.startswith("values") else "iter"))
+
+
+@model(r"^<&(mut )?(HashMap|IndexMap|BTreeMap|HashSet|IndexSet|BTreeSet)<.*> as IntoIterator>::into_iter$")
+def m_map_ref_into_iter(engine, ctx, args, callee, frame):
+    return map_iter(engine, ctx, get_map(args[0]), "iter")
+
+
+@model(r"^<(HashMap|IndexMap|BTreeMap|HashSet|IndexSet|BTreeSet)<.*> as IntoIterator>::into_iter$")
+def m_map_into_iter(engine, ctx, args, callee, frame):
+    mp = args[0]
+    if isinstance(mp, SetV):
+        return IterV("seq", items=[Cell(x) for x in mp.items], idx=0, end=len(mp.items), by_ref=False)
+    items = [Cell(Agg("tuple", "tuple", [Cell(k), Cell(c.v)])) for k, c in mp.entries]
+    return IterV("seq", items=items, idx=0, end=len(items), by_ref=False)
+
+
+# ------------------------------------------------------------------ external text parsers (outside the claim)
+
+@model(r"^core::str::<impl str>::parse::<String>$")
+def m_parse_string(engine, ctx, args, callee, frame):
+    return ok(deep_copy(deref(args[0])))
+
+
+def opaque_parser(name, definitely_bad):
+    """the external parser `name` is explored through one definitely-rejected input class (exact) and an
+    assumed-success class (flagged nondet_model, excluded from outcome comparison)"""
+    def f(engine, ctx, args, callee, frame):
+        b = as_bytes(engine, args[0])
+        if ctx.branch(ctx.fresh_bool(name + "_ok")):
+            ctx.note("nondet_model", what="%s assumed to succeed" % name)
+            ctx.assume(int_binop("Gt", b.len, Int(0, 64)))
+            return ok(Opaque(name, b))
+        ctx.assume(definitely_bad(b))
+        return err(Opaque(name + "::Error"))
+    return f
+
+
+def _not_alpha_start(b):
+    c = b.byte(0)
+    alpha = b_or(b_and(int_binop("Ge", c, Int(0x41, 8)), int_binop("Le", c, Int(0x5A, 8))),
+                 b_and(int_binop("Ge", c, Int(0x61, 8)), int_binop("Le", c, Int(0x7A, 8))))
+    return b_or(int_binop("Eq", b.len, Int(0, 64)), b_not(alpha))
+
+
+MODELS.append((re.compile(r"^core::str::<impl str>::parse::<(url::)?Url>$|^(url::)?Url::parse$"), opaque_parser("Url", _not_alpha_start)))
+MODELS.append((re.compile(r"^core::str::<impl str>::parse::<(urn::)?Urn>$"), opaque_parser("Urn", _not_alpha_start)))
+
+
+@model(r"^(pem::)?parse_many::<")
+def m_pem_parse_many(engine, ctx, args, callee, frame):
+    """pem::parse_many: text without any '-' contains no PEM block -> Ok(vec![]); the rest is assumed-success"""
+    b = as_bytes(engine, args[0])
+    if ctx.branch(ctx.fresh_bool("pem_has_blocks")):
+        ctx.note("nondet_model", what="pem::parse_many assumed to succeed on text with PEM markers")
+        ctx.assume(int_binop("Ge", b.len, Int(11, 64)))
+        return ok(VecV("Pem", [Cell(Opaque("Pem", b))]))
+    scan = getattr(engine, "max_input", 256)
+    key = ("nodash", scan, b.arr.get_id(), b.off.v if b.off.concrete else b.off.v.get_id(),
+           b.len.v if b.len.concrete else b.len.v.get_id())
+    f = _FORMULA_CACHE.get(key)
+    if f is None:
+        f = (z3.And(*[z3.Implies(z3.ULT(z3.BitVecVal(i, 64), b.len.z3()), b.byte(i).z3() != 0x2D) for i in range(scan)]), b)
+        _FORMULA_CACHE[key] = f
+    ctx.assume(f[0])
+    return ok(VecV("Pem", []))
+
+
+@model(r"^(core::str::)?from_utf8$")
+def m_str_from_utf8(engine, ctx, args, callee, frame):
+    b = as_bytes(engine, args[0])
+    if utf8_check(engine, ctx, b):
+        return ok(Ref(Cell(Bytes(b.arr, b.off, b.len, utf8=True))))
+    return err(Opaque("Utf8Error"))
+
+
+@model(r"^<Box<.*> as From<.*>>::from$")
+def m_box_from(engine, ctx, args, callee, frame):
+    m = re.match(r"^<Box<(.*)> as From<(.*)>>::from$", callee)
+    if m.group(1) in ("str", "[u8]"):
+        return args[0]
+    return Ref(Cell(args[0]))
+
+
+
+# ------------------------------------------------------------------ vec![a, b, ..] expansion
+
+@model(r"^Box::<\[.*; \d+\]>::new_uninit$")
+def m_box_new_uninit(engine, ctx, args, callee, frame):
+    arrcell = Cell(None)
+    mu = Agg("struct", "MaybeUninit", [Cell(unit()), Cell(Agg("struct", "ManuallyDrop", [Cell(Agg("struct", "MaybeDangling", [arrcell]))]))])
+    return Agg("struct", "BoxUninit", [Cell(Agg("struct", "Unique", [Cell(Ref(Cell(mu)))]))])
+
+
+@model(r"^(std::boxed::)?box_assume_init_into_vec_unsafe::<")
+def m_box_into_vec(engine, ctx, args, callee, frame):
+    mu = args[0].fields[0].v.fields[0].v.cell.v
+    arr = mu.fields[1].v.fields[0].v.fields[0].v
+    ety = re.search(r"::<(.*), \d+>$", callee).group(1)
+    if ety == "u8":
+        return bytes_from_ints([c.v for c in arr.fields])
+    return VecV(ety, list(arr.fields))
+
+
+@model(r"^core::slice::<impl \[.*\]>::into_vec::<|^<\[.*\]>::into_vec")
+def m_slice_into_vec(engine, ctx, args, callee, frame):
+    v = deref(args[0])
+    if isinstance(v, Agg) and v.kind == "array":
+        return VecV("_", list(v.fields))
+    return v
+
+
+def _bad_first(chars):
+    def f(b):
+        c = b.byte(0)
+        cond = int_binop("Eq", b.len, Int(0, 64))
+        ne = True
+        for ch in chars:
+            ne = b_and(ne, int_binop("Ne", c, Int(ord(ch), 8)))
+        return b_or(cond, ne)
+    return f
+
+
+def _json_bad(b):
+    return b_or(int_binop("Eq", b.len, Int(0, 64)), int_binop("Eq", b.byte(0), Int(0x21, 8)))
+
+
+MODELS.append((re.compile(r"^serde_json::from_(slice|str)::<"), opaque_parser("serde_json", _json_bad)))
+MODELS.append((re.compile(r"^vcard4::parse::<"), opaque_parser("vcard4", _bad_first("Bb"))))
+MODELS.append((re.compile(r"^core::str::<impl str>::parse::<age::x25519::Identity>$"), opaque_parser("age::Identity", _bad_first("Aa"))))
